@@ -17,7 +17,7 @@
 # -----------------------------------------------------------------------------
 import json
 import logging
-from typing import Any, Dict, List, Set, Tuple
+from typing import Any, Dict, List, Optional, Set, Tuple
 
 # -----------------------------------------------------------------------------
 # 📥 Project-Specific Imports
@@ -39,16 +39,37 @@ logger = logging.getLogger(__name__)
 # -----------------------------------------------------------------------------
 
 
-def _extract_actions(data: Any, actions: Set[str]) -> None:
+def _extract_actions(
+    data: Any, actions: Set[str], guards: Optional[Set[str]] = None
+) -> None:
     """
     Extracts action names from various data formats (string, list, dict).
 
     Args:
         data (Any): 📝 The data that might contain action definitions.
         actions (Set[str]): 📤 The set to which extracted action names are added.
+        guards (Optional[Set[str]]): 🛡️ Receives the guards named by the
+            branches of a ``choose`` action, when given.
     """
     action_list = data if isinstance(data, list) else [data]
     for action in action_list:
+        # 🔀 The branches of a `choose` action name actions and guards too.
+        if (
+            isinstance(action, dict)
+            and action.get("type") in ("choose", "xstate.choose")
+            and isinstance(action.get("params"), dict)
+        ):
+            branches = action["params"].get("conditions")
+            for branch in branches if isinstance(branches, list) else []:
+                if not isinstance(branch, dict):
+                    continue
+                if "actions" in branch:
+                    _extract_actions(branch["actions"], actions, guards)
+                branch_guard = branch.get("guard", branch.get("cond"))
+                if guards is not None and branch_guard is not None:
+                    parsed = parse_guard(branch_guard)
+                    if parsed is not None:
+                        guards.update(parsed.leaf_names())
         name = None
         if isinstance(action, str):
             name = action
@@ -94,7 +115,7 @@ def _extract_from_transition(
 
         # ⚙️ Extract actions
         if "actions" in trans:
-            _extract_actions(trans["actions"], actions)
+            _extract_actions(trans["actions"], actions, guards)
 
         # 🛡️ Extract guards (supports both 'cond' and 'guard' keys)
         #
@@ -133,7 +154,11 @@ def _traverse_and_extract(
     # 🚪 Process entry and exit actions
     for key in ("entry", "exit"):
         if key in node:
-            _extract_actions(node[key], actions)
+            _extract_actions(node[key], actions, guards)
+
+    # 🏁 A compound / parallel state's own completion transition.
+    if "onDone" in node:
+        _extract_from_transition(node["onDone"], actions, guards)
 
     # ↪️ Process event-based transitions
     if "on" in node and isinstance(node["on"], dict):
